@@ -67,6 +67,7 @@ def dispatch (op : String) : Option (List String → List String → Option (Str
   | "scn" => some scn
   | "scn2" => some scn2
   | "scn.measure" => some scnMeasure
+  | "scn.measuremany" => some scnMeasureMany
   | "scn.counts" => some scnCounts
   | "progress.seq" => some progressSeq
   | "progress.script" => some progressScript
